@@ -1,4 +1,4 @@
-CONSTANT Fam = "header"
+CONSTANT Fams = {"header", "params"}
 CONSTANT Full = FALSE
 CONSTANT Seed = 1
 INIT GInit
